@@ -387,6 +387,11 @@ def norm_msg(msg, values):
     return first[:140]
 
 
+def panic_file(at):
+    """`crates/config/src/x.rs:78:40` -> `x.rs` (file only: stable under edits elsewhere in the file)"""
+    return at.split(":")[0].rsplit("/", 1)[-1]
+
+
 def judge(c, code, err):
     kind = vlib.is_crash(code, err)
     if not kind:
@@ -396,13 +401,13 @@ def judge(c, code, err):
     if kind == "timeout" and "panicked at" in text:
         # a panic on a worker thread after which the process never exits
         m = re.search(r"panicked at ([^\n]*):\n(.*)", text, re.S)
-        return [("cli:%s:panic+hang:%s" % (cmd, norm_msg(m.group(2), c["values"])), {"exit": code, "at": m.group(1), "stderr": text[-600:]})]
+        return [("cli:%s:panic+hang:%s:%s" % (cmd, panic_file(m.group(1)), norm_msg(m.group(2), c["values"])), {"exit": code, "at": m.group(1), "stderr": text[-600:]})]
     if "overflowed its stack" in text:
         return [("cli:%s:abort:stack-overflow:%s" % (cmd, c["route"]), {"exit": code, "stderr": text[-600:]})]
     if kind == "panic":
         m = re.search(r"panicked at ([^\n]*):\n(.*)", text, re.S)
         msg = m.group(2) if m else text
-        return [("cli:%s:panic:%s" % (cmd, norm_msg(msg, c["values"])), {"exit": code, "at": m.group(1) if m else None, "stderr": text[-600:]})]
+        return [("cli:%s:panic:%s:%s" % (cmd, panic_file(m.group(1)) if m else "", norm_msg(msg, c["values"])), {"exit": code, "at": m.group(1) if m else None, "stderr": text[-600:]})]
     if kind == "timeout":
         return [("cli:%s:hang:%s" % (cmd, c["route"]), {"exit": code, "stderr": text[-300:]})]
     return [("cli:%s:%s:%s" % (cmd, kind.replace(" ", ""), c["route"]), {"exit": code, "stderr": text[-600:]})]
